@@ -152,6 +152,12 @@ where
         let e = &self.data.equilibration.e;
         data.update_vector(&mut self.data.b, e, None)?;
 
+        // cap entries at the infinity bound, as at construction
+        let infbound = self.data.infbound;
+        for (b, &e) in self.data.b.iter_mut().zip(e) {
+            *b = T::min(*b, e * infbound);
+        }
+
         // flush unscaled norm. Will be recalculated during solve
         self.data.clear_normb();
 
